@@ -147,7 +147,8 @@ def prove(ctx):
                 'coq/GenProofs/BitvectorLeafBridge.v',
                 'coq/GenProofs/BitvectorFlatBridge.v',
                 'coq/GenProofs/BitvectorCorrect.v',
-                'coq/GenProofs/BitvectorFormula.v'],
+                'coq/GenProofs/BitvectorFormula.v',
+                'coq/GenProofs/BitvectorSuccess.v'],
         string_templates=templates, notes=notes)
     ctx.trusted.append(
         'translator tie T: tools/py2coq_bitvector.py (circuit layer of '
